@@ -1194,11 +1194,17 @@ async fn client(name: String, prog: Vec<Op>) {
         ev(json!({"ev": "op_begin", "task": name, "n": n, "o": o}));
         // d = 1 on an awaiting operation: poll it once and, if it is still pending, drop it (a select! that lost, a timeout)
         let cancellable = o.d == 1 && matches!(o.op.as_str(), "send" | "call" | "ping" | "await_ref" | "try_halt" | "join" | "halt" | "await" | "consume");
+        let mut self_woken = false;
         let res = if cancellable {
+            let ex = crate::actors::exec();
+            let before = ex.task_woken(&name);
             let mut f = Box::pin(run_op(&name, n, o));
             match futures::poll!(f.as_mut()) {
                 std::task::Poll::Ready(res) => res,
                 std::task::Poll::Pending => {
+                    // did the call merely yield to the executor (it asked to be polled again at once), or is it
+                    // waiting for something?  Only in the first case may it have done nothing yet.
+                    self_woken = before || ex.task_woken(&name);
                     drop(f);
                     r("cancelled", "*".into())
                 }
@@ -1206,7 +1212,11 @@ async fn client(name: String, prog: Vec<Op>) {
         } else {
             run_op(&name, n, o).await
         };
-        ev(json!({"ev": "op_end", "task": name, "n": n, "res": res.res, "pos": res.pos, "inst": res.inst, "a": res.a}));
+        if self_woken {
+            ev(json!({"ev": "op_end", "task": name, "n": n, "res": res.res, "pos": res.pos, "inst": res.inst, "a": res.a, "woken": true}));
+        } else {
+            ev(json!({"ev": "op_end", "task": name, "n": n, "res": res.res, "pos": res.pos, "inst": res.inst, "a": res.a}));
+        }
     }
 }
 
